@@ -23,6 +23,10 @@ type c16Case struct {
 	// expansion appends [j] suffixes). Such a tree / fill must be refused; if it is not, the observers are
 	// checked as usual and report the duplicate.
 	Collide bool `json:"collide,omitempty"`
+	// Rename: after the steps above, variable number Rename[0]-1 of the tree (in listing order) is filled with the
+	// NAME of variable number Rename[1]-1 (a string value renames a variable). If the two differ the result would
+	// carry one name twice: it must be refused, and if it is not, the observers report the duplicate.
+	Rename [2]int `json:"rename,omitempty"`
 }
 
 func init() { registerReplay("c16", checkC16) }
@@ -105,6 +109,21 @@ func checkC16(c c16Case) (ci caseInfo, err error) {
 	nvars, err := observersAgree(root, "root item")
 	if err != nil {
 		return ci, err
+	}
+	if vars := root.Variables(); c.Rename[0] > 0 && len(vars) >= 2 {
+		from, to := vars[(c.Rename[0]-1)%len(vars)], vars[(c.Rename[1]-1)%len(vars)]
+		if !model.IsEllipsisName(from) && !model.IsEllipsisName(to) {
+			var renamed ast.ItemNode
+			if p, _ := try(func() { renamed = root.FillVariables(map[string]interface{}{from: to}) }); p {
+				ci.label("rename-onto-existing-name:refused")
+			} else {
+				// accepted: legitimate when the string was taken as a value (an ASCII variable) or from == to
+				ci.label("rename-onto-existing-name:accepted")
+				if _, err := observersAgree(renamed, fmt.Sprintf("item after filling %q with the string %q", from, to)); err != nil {
+					return ci, err
+				}
+			}
+		}
 	}
 	// every sub-item of the template, built on its own
 	nodesWithVars := 0
@@ -190,6 +209,9 @@ func genC16(t *rapid.T) c16Case {
 	if rapid.IntRange(0, 2).Draw(t, "asMessage") == 2 {
 		h := genHdr(t, false)
 		c.Hdr = &h
+	}
+	if rapid.IntRange(0, 3).Draw(t, "rename") == 3 {
+		c.Rename = [2]int{rapid.IntRange(1, 12).Draw(t, "renameFrom"), rapid.IntRange(1, 12).Draw(t, "renameTo")}
 	}
 	if rapid.IntRange(0, 4).Draw(t, "collide") == 4 {
 		// rename variables from a tiny pool, so that equal names (or names that become equal once an expansion
